@@ -125,7 +125,26 @@ def run_real(rp, spec, ops):
                 answers.append('unknown')
             trace.append({'op': o, 'before': None, 'after': state(nl), 'answer': answers[-1], 'held': {k: [slot_canon(s) for s in v] for k, v in held.items()}})
     nl = pilot.nodelist
-    return {'answers': answers, 'nodes': state(nl), 'index': int(getattr(nl, '__index__', 0))}, trace
+    res = {'answers': answers, 'nodes': state(nl), 'index': int(getattr(nl, '__index__', 0))}
+    # once nothing is held the pilot is as good as new: a request that was refused earlier and that a fresh pilot grants
+    # is granted (probed after the script; what the probe was given is released again)
+    if not held:
+        probes, done = [], set()
+        for o, a in zip(ops, answers):
+            if o[0] == 'find' and a is None and len(probes) < 2 and repr(o[2:]) not in done:
+                done.add(repr(o[2:]))
+                rr = RankRequirements(n_cores=o[2]['n_cores'], core_occupation=o[2]['core_occ'] / float(U), n_gpus=o[2]['n_gpus'],
+                                      gpu_occupation=o[2]['gpu_occ'] / float(U), lfs=o[2]['lfs'], mem=o[2]['mem'])
+                try:
+                    got = pilot.nodelist.find_slots(rr, n_slots=o[3])
+                    if got: pilot.nodelist.release_slots(got)
+                    fresh = make_pilot(rp, spec).nodelist.find_slots(rr, n_slots=o[3])
+                    probes.append({'req': o[2], 'n': o[3], 'got': bool(got), 'fresh': bool(fresh)})
+                except Exception:
+                    pass
+        if probes:
+            trace.append({'op': ['probe'], 'before': None, 'after': state(pilot.nodelist), 'answer': probes, 'held': {}})
+    return res, trace
 
 
 def gen(rng):
@@ -190,6 +209,11 @@ def monitor(spec, ops, trace, props):
                             bad.append(('C01', 'nodelist:blocked-%s-granted' % kind[:-1], 'node %d %s %d is DOWN' % (ni, kind[:-1], i)))
                 if u['lfs'] > init[ni]['lfs'] or u['mem'] > init[ni]['mem']:
                     bad.append(('C01', 'nodelist:lfs-or-mem-oversubscribed', 'node %d holds lfs %d / mem %d of %d / %d' % (ni, u['lfs'], u['mem'], init[ni]['lfs'], init[ni]['mem'])))
+        if 'C03' in props and t['op'][0] == 'probe':
+            for pr in t['answer']:
+                if pr['fresh'] and not pr['got']:
+                    bad.append(('C03', 'nodelist:released-capacity-not-usable', 'everything is released; %d slots of %s are refused, a fresh pilot grants them'
+                                % (pr['n'], pr['req'])))
         if 'C03' in props:
             # the node map shows exactly what is held
             for ni, u in enumerate(use):
